@@ -19,7 +19,11 @@ func fmtThreads(ths []tspec) string {
 		if f == "" {
 			f = "-"
 		}
-		fmt.Fprintf(&sb, " %s %d %d %s", t.kind, t.listener, t.laddr, f)
+		k := t.kind
+		if t.spell != 0 {
+			k = fmt.Sprintf("%s%d", t.kind, t.spell)
+		}
+		fmt.Fprintf(&sb, " %s %d %d %s", k, t.listener, t.laddr, f)
 	}
 	return sb.String()
 }
@@ -87,8 +91,8 @@ func gen(out *vc.Out, r *vc.Rand, thorough bool) {
 			fast = append(fast, c)
 		}
 	}
-	two := []tspec{{"a", 101, 1, ""}, {"a", 102, 2, ""}}
-	three := []tspec{{"a", 101, 1, ""}, {"a", 102, 2, ""}, {"r", 0, 0, ""}}
+	two := []tspec{{"a", 101, 1, "", 0}, {"a", 102, 2, "", 0}}
+	three := []tspec{{"a", 101, 1, "", 0}, {"a", 102, 2, "", 0}, {"r", 0, 0, "", 0}}
 
 	// A: two activations from two nodes, every interleaving of their phases
 	la := 11
@@ -110,20 +114,41 @@ func gen(out *vc.Out, r *vc.Rand, thorough bool) {
 	})
 	// C: the same client activates twice (two nodes); two revocations
 	words(2, 8, func(w []string) {
-		add(schedCase(500, 1, 0, 50, 0, 0, []tspec{{"a", 101, 1, ""}, {"a", 101, 1, ""}}, append([]string{"C"}, w...)))
-		add(schedCase(500, 1, 1, 50, 0, 0, []tspec{{"r", 0, 0, ""}, {"r", 0, 0, ""}}, append([]string{"C"}, w...)))
+		add(schedCase(500, 1, 0, 50, 0, 0, []tspec{{"a", 101, 1, "", 0}, {"a", 101, 1, "", 0}}, append([]string{"C"}, w...)))
+		add(schedCase(500, 1, 1, 50, 0, 0, []tspec{{"r", 0, 0, "", 0}, {"r", 0, 0, "", 0}}, append([]string{"C"}, w...)))
 		out.Count("exhaustive:same-client,2revoke")
 	})
+
+	// S: the same code spelled differently by overlapping requests (upper case, surrounding blanks, another string):
+	// claim key and record key must stay the same string for every request
+	ls := 9
+	if thorough {
+		ls = 11
+	}
+	for _, sp := range [][2]int{{0, 1}, {1, 0}, {0, 2}, {1, 2}, {1, 1}, {3, 0}, {0, 4}} {
+		pair := []tspec{{"a", 101, 1, "", sp[0]}, {"a", 102, 2, "", sp[1]}}
+		words(2, ls, func(w []string) {
+			add(schedCase(500, 1, 1, 50, 0, 0, pair, append([]string{"C"}, w...)))
+			out.Count("exhaustive:2act-spellings")
+		})
+	}
+	for _, sp := range [][3]int{{0, 1, 2}, {1, 0, 0}, {2, 2, 1}, {0, 0, 1}} {
+		tri := []tspec{{"a", 101, 1, "", sp[0]}, {"a", 102, 2, "", sp[1]}, {"r", 0, 0, "", sp[2]}}
+		words(3, 7, func(w []string) {
+			add(schedCase(500, 2, 1, 50, 0, 0, tri, append([]string{"C"}, w...)))
+			out.Count("exhaustive:2act+revoke-spellings")
+		})
+	}
 
 	// D: every single write-failure position of one activation / one revocation
 	aw, rw := discoverWrites("a"), discoverWrites("r")
 	out.Count(fmt.Sprintf("faultpoints:activate=%d,revoke=%d", len(aw), len(rw)))
 	for _, f := range append([]string{"get:Get:code"}, aw...) {
-		one := []tspec{{"a", 101, 1, f}}
+		one := []tspec{{"a", 101, 1, f, 0}}
 		add(schedCase(500, 1, 1, 50, 0, 0, one, []string{"C"}))
 		add(schedCase(500, 1, 0, 50, 0, 0, one, []string{"C"}))
 		// followed by / interleaved with a second, fault-free activation
-		pair := []tspec{{"a", 101, 1, f}, {"a", 102, 2, ""}}
+		pair := []tspec{{"a", 101, 1, f, 0}, {"a", 102, 2, "", 0}}
 		words(2, 6, func(w []string) {
 			add(schedCase(500, 1, 1, 50, 0, 0, pair, append([]string{"C"}, w...)))
 		})
@@ -132,8 +157,16 @@ func gen(out *vc.Out, r *vc.Rand, thorough bool) {
 		add(schedCase(500, 1, 0, 50, 0, 0, one, []string{"C", "t0", "t0", "X"}))
 		out.Count("fault:activate")
 	}
+	// a failing claim / look-up / release of one request while two others are in flight
+	for _, f := range []string{"claim:SetNX:claim", "release:Delete:claim", "get:Get:code"} {
+		tri := []tspec{{"a", 101, 1, f, 0}, {"a", 102, 2, "", 0}, {"a", 103, 1, "", 0}}
+		words(3, 7, func(w []string) {
+			add(schedCase(500, 1, 1, 50, 0, 0, tri, append([]string{"C"}, w...)))
+			out.Count("fault:3act")
+		})
+	}
 	for _, f := range append([]string{"get:Get:code"}, rw...) {
-		pair := []tspec{{"r", 0, 0, f}, {"a", 102, 2, ""}}
+		pair := []tspec{{"r", 0, 0, f, 0}, {"a", 102, 2, "", 0}}
 		add(schedCase(500, 1, 1, 50, 0, 0, pair[:1], []string{"C"}))
 		words(2, 5, func(w []string) {
 			add(schedCase(500, 1, 1, 50, 0, 0, pair, append([]string{"C"}, w...)))
@@ -195,6 +228,9 @@ func gen(out *vc.Out, r *vc.Rand, thorough bool) {
 			if r.Intn(8) == 0 {
 				t.fault = vc.Pick(r, faults)
 			}
+			if r.Intn(4) == 0 {
+				t.spell = 1 + r.Intn(len(spellings)-1)
+			}
 			ths = append(ths, t)
 		}
 		ta := 1 + r.Intn(2)
@@ -245,6 +281,9 @@ func gen(out *vc.Out, r *vc.Rand, thorough bool) {
 			t := tspec{kind: "a", listener: vc.Pick(r, listeners[:6]), laddr: 1 + r.Intn(2)}
 			if r.Intn(5) == 0 {
 				t.kind = "r"
+			}
+			if r.Intn(3) == 0 {
+				t.spell = 1 + r.Intn(len(spellings)-1)
 			}
 			ths = append(ths, t)
 		}
